@@ -2153,18 +2153,21 @@ class PersistedRDD(RDD):
         self._cid = None
 
     def compute(self, split, task_context):
+        # the key is kept in a local variable: this object is shared by all
+        # tasks of a job, which may run concurrently on a thread pool
         if self._rdd_id is None or split.index is None:
-            self._cid = None
+            cid = None
         else:
-            self._cid = (self._rdd_id, split.index)
+            cid = (self._rdd_id, split.index)
+        self._cid = cid
 
-        if not task_context.cache_manager.has(self._cid):
+        if not task_context.cache_manager.has(cid):
             data = list(self.prev.compute(split, task_context._create_child()))
-            task_context.cache_manager.add(self._cid, data, self.storageLevel)
+            task_context.cache_manager.add(cid, data, self.storageLevel)
             self._cache_manager = task_context.cache_manager
         else:
-            log.debug('Using cache of RDD %s partition %s.', *self._cid)
-            data = task_context.cache_manager.get(self._cid)
+            log.debug('Using cache of RDD %s partition %s.', *cid)
+            data = task_context.cache_manager.get(cid)
 
         return iter(data)
 
